@@ -338,12 +338,21 @@ class LocationTable:
             # vector yet and lives until the lookup completes or gives up.
             # A position timestamp ahead of the local clock (sender clock skew, sub-second
             # timestamps) has age zero; it must not wrap around into a huge unsigned age.
-            self.loc_t = {
-                gn: entry for gn, entry in self.loc_t.items()
-                if entry.ls_pending
-                or entry.position_vector.tst > current_time
-                or (current_time - entry.position_vector.tst) <= lifetime_ms
-            }
+            kept = {}
+            for gn, entry in self.loc_t.items():
+                if (
+                    entry.position_vector.tst > current_time
+                    or (current_time - entry.position_vector.tst) <= lifetime_ms
+                ):
+                    kept[gn] = entry
+                elif entry.ls_pending:
+                    if entry.position_vector_received:
+                        # The lookup goes on, but what was known about the station has expired:
+                        # only an empty placeholder is left (no stale PV, neighbour flag or DPL)
+                        entry = LocationTableEntry(self.mib)
+                        entry.ls_pending = True
+                    kept[gn] = entry
+            self.loc_t = kept
 
     def new_shb_packet(
         self, position_vector: LongPositionVector, packet: bytes
